@@ -9,6 +9,7 @@ package plugin
 // go-plugin call site is attributed to it; a harness model takes precedence over an engine built-in.
 
 import (
+	"sync"
 	"bufio"
 	"bytes"
 	"context"
@@ -170,11 +171,27 @@ func (p *wProc) exit(code int) {
 	p.die()
 }
 
+// A process's death takes all its goroutines with it, so it does not commute with anything they still had to do to the
+// world outside the process. For the schedule exploration that is expressed through a per-process mutex touched by the
+// death and by the operations of that process that change the file system (closing a listener unlinks its socket).
+var wProcMu = map[int]*sync.Mutex{}
+
+func wProcTouch(id int) {
+	m := wProcMu[id]
+	if m == nil {
+		m = new(sync.Mutex)
+		wProcMu[id] = m
+	}
+	m.Lock()
+	m.Unlock()
+}
+
 // die: SIGKILL or exit. May be called from any process.
 func (p *wProc) die() {
 	if p.isDead {
 		return
 	}
+	wProcTouch(p.id)
 	p.isDead = true
 	wTrace(fmt.Sprintf("process %d dies", p.id))
 	close(p.dead)
